@@ -80,6 +80,9 @@ pub struct World {
     pub close_on_piece_done: Option<usize>,
     /// connection tasks the scheduler does not run for the moment (a legal schedule: a task may be delayed arbitrarily)
     pub frozen: std::collections::BTreeSet<usize>,
+    /// connections made from now on get a 4 KiB kernel send buffer on the client's end: a write of a 16 KiB message is
+    /// then accepted in parts (as on any TCP connection to a slow or distant reader)
+    pub small_sndbuf: bool,
     next_peer: usize,
 }
 
@@ -100,6 +103,7 @@ impl World {
             pending: VecDeque::new(),
             close_on_piece_done: None,
             frozen: std::collections::BTreeSet::new(),
+            small_sndbuf: false,
             next_peer: 0,
         }
     }
@@ -154,6 +158,13 @@ impl World {
         let (ours, theirs) = UnixStream::pair().expect("socketpair");
         ours.set_nonblocking(true).unwrap();
         theirs.set_nonblocking(true).unwrap();
+        if self.small_sndbuf {
+            use std::os::unix::io::AsRawFd;
+            let v: libc::c_int = 4096;
+            unsafe {
+                libc::setsockopt(theirs.as_raw_fd(), libc::SOL_SOCKET, libc::SO_SNDBUF, &v as *const _ as *const libc::c_void, std::mem::size_of::<libc::c_int>() as libc::socklen_t);
+            }
+        }
         let std_tcp = unsafe { std::net::TcpStream::from_raw_fd(theirs.into_raw_fd()) };
         let tcp = tokio::net::TcpStream::from_std(std_tcp).expect("from_std");
         self.session.verif_add_peer(&addr, expected_id);
